@@ -138,6 +138,27 @@ theorem filterMap_alias (c : Cte) (dims : List Item)
         | some e => simp only [hl, Option.map_some, Option.some.injEq] at hr; subst hr; rfl
       · simp at hr
 
+theorem filterMap_name (c : Cte) (mets : List (AExpr × String))
+    (hm : mets.all (fun a => (resolveAgg c a).isSome) = true) :
+    (mets.filterMap (resolveAgg c)).map (·.name) = mets.map (·.2) := by
+  induction mets with
+  | nil => rfl
+  | cons a as ih =>
+    simp only [List.all_cons, Bool.and_eq_true] at hm
+    simp only [List.filterMap_cons, List.map_cons]
+    cases hr : resolveAgg c a with
+    | none => simp [hr] at hm
+    | some fa =>
+      simp only [List.map_cons, ih hm.2]
+      congr 1
+      unfold resolveAgg at hr
+      split at hr
+      · rename_i f k _
+        cases hl : cteLookup c k with
+        | none => simp [hl] at hr
+        | some raw => simp only [hl, Option.map_some, Option.some.injEq] at hr; subst hr; rfl
+      · simp at hr
+
 theorem filterMap_isEmpty (c : Cte) (dims : List Item)
     (hk : dims.all (fun it => (resolveKey c it).isSome) = true) :
     (dims.filterMap (resolveKey c)).isEmpty = dims.isEmpty := by
